@@ -384,13 +384,24 @@ func addNearDuplicates(t *rapid.T, w *World) {
 						other = append(other, e)
 					}
 				}
+				inVocab := func(k string) bool {
+					for _, x := range labelKeys {
+						if x == k {
+							return true
+						}
+					}
+					return false
+				}
+				// only within the label-key vocabulary, so that every derived key is a valid label key
 				if len(ex) == 1 && len(eq) == 1 && len(other) == 0 {
 					k2 := sortedKeysS(eq)[0]
-					return &Selector{MatchLabels: map[string]string{ex[0].Key + k2: eq[k2]}}
+					if inVocab(ex[0].Key + k2) {
+						return &Selector{MatchLabels: map[string]string{ex[0].Key + k2: eq[k2]}}
+					}
 				}
 				if len(ex) == 0 && len(eq) == 1 && len(other) == 0 {
 					k := sortedKeysS(eq)[0]
-					if len(k) >= 2 {
+					if len(k) >= 2 && inVocab(k[:1]) && inVocab(k[1:]) {
 						return &Selector{MatchLabels: map[string]string{k[1:]: eq[k]}, Exprs: []Expr{{Key: k[:1], Op: "Exists"}}}
 					}
 				}
